@@ -641,6 +641,7 @@ func main() {
 		{"aggSrc", []string{"AggSrc.lean"}, genAggSrc},
 		{"s3Src", []string{"S3Src.lean"}, genS3Src},
 		{"kafkaSrc", []string{"KafkaSrc.lean"}, genKafkaSrc},
+		{"rabbitSrc", []string{"RabbitSrc.lean"}, genRabbitSrc},
 	}
 	status := map[string]interface{}{}
 	failed := 0
